@@ -782,11 +782,15 @@ func configs(thorough bool) []struct {
 	}
 	var r []cd
 	for _, d := range []uint64{0, 1, 2, 3, 4} {
-		r = append(r, cd{config{depth: d, sel: xyzw, triples: true, pairs: pairsT}, 3})
+		bfs := 2
+		if d == 1 || d == 4 {
+			bfs = 3 // the reachable state graph does not depend on the tree depth (same counts for every depth)
+		}
+		r = append(r, cd{config{depth: d, sel: xyzw, triples: true, pairs: pairsT}, bfs})
 		r = append(r, cd{config{depth: d, generic: true, sel: all, triples: true}, 3})
 	}
-	r = append(r, cd{config{depth: 1, sel: xyz, triples: true, pairs: pairsT}, 5})
-	r = append(r, cd{config{depth: 2, sel: xyv, triples: true, pairs: pairsT}, 4})
+	r = append(r, cd{config{depth: 1, sel: xyz, triples: true, pairs: pairsT}, 4})
+	r = append(r, cd{config{depth: 2, sel: xyv, triples: true, pairs: pairsT}, 3})
 	r = append(r, cd{config{depth: 1, sel: all, triples: true, pairs: pairsQ}, 2})
 	r = append(r, cd{config{depth: 1, sel: xu, pairs: pairsQ}, 3})
 	r = append(r, cd{config{depth: 0, generic: true, sel: xu}, 3})
